@@ -70,6 +70,13 @@ IsPermOf(order, S) == SeqRange(order) = S /\ Len(order) = Cardinality(S)
 Topological(g, order) ==
   \A i \in 1..Len(order) : \A j \in 1..Len(order) :
      (i # j /\ g.mult[order[i]][order[j]] > 0) => i < j
+\* a traversal cut short (a node panicked): the invocations so far are distinct upstream nodes, and in an acyclic
+\* upstream set every node comes after ALL the nodes that feed it (so those must be in the prefix too)
+PrefixOK(g, out, order) ==
+  /\ SeqRange(order) \subseteq Processed(g, out) /\ Len(order) = Cardinality(SeqRange(order))
+  /\ (Acyclic(g, Processed(g, out)) =>
+        \A j \in 1..Len(order) : \A u \in Processed(g, out) :
+           g.mult[u][order[j]] > 0 => \E i \in 1..(j - 1) : order[i] = u)
 OrderOK(g, out, order) ==
   /\ IsPermOf(order, Processed(g, out))
   /\ (Acyclic(g, Processed(g, out)) => Topological(g, order))
